@@ -469,6 +469,8 @@ fn alpha_c18(m: &VModel, w: &mut VWorld, s: &VSt) -> Vec<VAct> {
         acts.push(VAct::SwapOut { add: tps > 0, base: tps.unsigned_abs(), limit: 0 });
     }
     acts.push(VAct::Settle);
+    // the owner pauses / re-opens the market
+    acts.push(VAct::SetOpen { open: !w.state().open });
     for sx in &m.secs {
         acts.push(VAct::Blk { secs: *sx, ms: 0 });
     }
@@ -516,7 +518,7 @@ fn step_c18(m: &VModel, w: &mut VWorld, s: &VSt, a: &VAct, out: &mut StepOut) ->
     if matches!(a, VAct::Settle) {
         out.tag(if o.ok { "c18:funding-settlements-ok" } else { "c18:funding-settlements-refused" });
     }
-    if o.ok && !matches!(a, VAct::Blk { .. } | VAct::Settle) {
+    if o.ok && !matches!(a, VAct::Blk { .. } | VAct::Settle | VAct::SetOpen { .. }) {
         let p = w.spot() as u64;
         let hist = mon["hist"].as_array_mut().unwrap();
         if hist.last().unwrap()[0].as_u64() == Some(h) {
